@@ -64,3 +64,16 @@ Theorem C03_visibility_filter : forall l r c s,
   filter_keypoints l r c s true = filter (kp_in_frame r c s) l /\ filter_keypoints l r c s false = l.
 Proof. exact filter_keypoints_spec. Qed.
 Print Assumptions C03_visibility_filter.
+
+(* CropAndPad: the keypoint is shifted by the crop / pad offsets and, when the result is resized back
+   (keep_size), zoomed by the per-axis factor of EVERY axis (an axis whose extent did not change has
+   factor 1), its scale multiplied by the largest factor *)
+From DV.proofs Require Import CropPadKp.
+Theorem C03_crop_and_pad_keypoint : forall kp cp pp r c s rr rc rs keep,
+  (0 < rr)%Z -> (0 < rc)%Z -> (0 < rs)%Z ->
+  exists kp', crop_and_pad_keypoint kp cp pp r c s rr rc rs keep = Ok kp' /\
+    kp_eq kp' (if keep then keypoint_scale (cp_shift kp cp pp) (inject_Z c / inject_Z rc) (inject_Z r / inject_Z rr)
+                                          (inject_Z s / inject_Z rs)
+               else cp_shift kp cp pp).
+Proof. exact crop_and_pad_keypoint_spec. Qed.
+Print Assumptions C03_crop_and_pad_keypoint.
